@@ -469,137 +469,143 @@ type qhyp struct {
 	reach string
 }
 
-// flattenAnd splits an expression at top-level &&.
-func flattenAnd(e *Expr) []*Expr {
-	if e.Op == "binary" && e.Name == "&&" {
-		return append(flattenAnd(e.Args[0]), flattenAnd(e.Args[1])...)
-	}
-	return []*Expr{e}
-}
-
-// noteHyp records the top-level universally quantified conjuncts of an assumed clause.
+// noteHyp records the universally quantified conjuncts of an assumed clause (looking through &&,
+// guards and pred expansions), and names witnesses for conjuncts of the form (forall v :: P) ==> Q.
 func (c *Ctx) noteHyp(e *Expr, ev *EvalCtx, reach string) {
-	for _, cj := range flattenAnd(e) {
-		if cj.Op == "binary" && cj.Name == "==>" && cj.Args[0].Op == "forall" {
-			// (forall v :: P) ==> Q : name the witness of the antecedent's failure and remember it as an
-			// instantiation point for goals with a quantified antecedent over the same sorts
-			fa := cj.Args[0]
-			n := ev
-			var sks []SVal
-			for _, v := range fa.Vars {
-				s, gt := c.eng.resolveType(ev.pkg, v.Type)
-				c.skolems++
-				sk := c.declare(fmt.Sprintf("wit.%s!%d", v.Name, c.skolems), s)
-				sv := SVal{T: sk, S: s, GT: gt}
-				sks = append(sks, sv)
-				n = n.bind(v.Name, sv)
-			}
-			p, err1 := n.evalBool(fa.Args[0])
-			q, err2 := ev.evalBool(cj.Args[1])
-			if err1 == nil && err2 == nil {
-				c.assume(reach, "(=> "+p+" "+q+")")
-				c.skTuples = append(c.skTuples, sks)
-			}
-			continue
+	switch {
+	case e.Op == "binary" && e.Name == "&&":
+		c.noteHyp(e.Args[0], ev, reach)
+		c.noteHyp(e.Args[1], ev, reach)
+	case e.Op == "call" && c.eng.cs.Preds[e.Name] != nil:
+		p := c.eng.cs.Preds[e.Name]
+		n, err := ev.enterPred(p, e)
+		if err == nil {
+			c.noteHyp(p.Body, n, reach)
 		}
-		if cj.Op == "forall" {
-			cp := *ev
-			c.qhyps = append(c.qhyps, qhyp{vars: cj.Vars, body: cj.Args[0], ev: &cp, reach: reach})
-		}
-	}
-}
-
-// skolemGoal evaluates a clause as a proof goal. Top-level universally quantified conjuncts are
-// skolemised and every recorded hypothesis with the same bound-variable sorts is instantiated at the skolems.
-func (c *Ctx) skolemGoal(e *Expr, ev *EvalCtx, reach string) (string, error) {
-	var parts []string
-	for _, cj := range flattenAnd(e) {
-		if cj.Op == "binary" && cj.Name == "==>" && cj.Args[0].Op == "forall" {
-			// goal (forall v :: A) ==> C: besides assuming the quantified antecedent, instantiate it at the
-			// recorded witness tuples of matching sorts
-			fa := cj.Args[0]
-			ante, err := ev.evalBool(fa)
-			if err != nil {
-				return "", err
-			}
-			conj := []string{ante}
-			for _, tup := range c.skTuples {
-				if len(tup) != len(fa.Vars) {
-					continue
-				}
-				n := ev
-				ok := true
-				for k, v := range fa.Vars {
-					s, _ := c.eng.resolveType(ev.pkg, v.Type)
-					if s != tup[k].S {
-						ok = false
-						break
-					}
-					n = n.bind(v.Name, tup[k])
-				}
-				if !ok {
-					continue
-				}
-				if inst, err := n.evalBool(fa.Args[0]); err == nil {
-					conj = append(conj, inst)
-				}
-			}
-			cons, err := ev.evalBool(cj.Args[1])
-			if err != nil {
-				return "", err
-			}
-			parts = append(parts, "(=> (and "+strings.Join(conj, " ")+") "+cons+")")
-			continue
-		}
-		if cj.Op != "forall" {
-			t, err := ev.evalBool(cj)
-			if err != nil {
-				return "", err
-			}
-			parts = append(parts, t)
-			continue
-		}
+	case e.Op == "forall":
+		cp := *ev
+		c.qhyps = append(c.qhyps, qhyp{vars: e.Vars, body: e.Args[0], ev: &cp, reach: reach})
+	case e.Op == "binary" && e.Name == "==>" && e.Args[0].Op == "forall":
+		fa := e.Args[0]
 		n := ev
 		var sks []SVal
-		for _, v := range cj.Vars {
+		for _, v := range fa.Vars {
 			s, gt := c.eng.resolveType(ev.pkg, v.Type)
 			c.skolems++
-			sk := c.declare(fmt.Sprintf("sk.%s!%d", v.Name, c.skolems), s)
+			sk := c.declare(fmt.Sprintf("wit.%s!%d", v.Name, c.skolems), s)
 			sv := SVal{T: sk, S: s, GT: gt}
 			sks = append(sks, sv)
 			n = n.bind(v.Name, sv)
 		}
-		t, err := n.evalBool(cj.Args[0])
+		p, err1 := n.evalBool(fa.Args[0])
+		q, err2 := ev.evalBool(e.Args[1])
+		if err1 == nil && err2 == nil {
+			c.assume(reach, "(=> "+p+" "+q+")")
+			c.skTuples = append(c.skTuples, sks)
+		}
+	case e.Op == "binary" && e.Name == "==>":
+		g, err := ev.evalBool(e.Args[0])
+		if err == nil {
+			r2 := g
+			if reach != "true" {
+				r2 = "(and " + reach + " " + g + ")"
+			}
+			c.noteHyp(e.Args[1], ev, r2)
+		}
+	}
+}
+
+// skolemGoal evaluates a clause as a proof goal: universally quantified conjuncts in positive position are
+// skolemised and the recorded hypotheses of matching sorts are instantiated at the skolem constants.
+func (c *Ctx) skolemGoal(e *Expr, ev *EvalCtx, reach string) (string, error) {
+	n := *ev
+	n.mode = 1
+	n.reach = reach
+	return n.evalBool(e)
+}
+
+func (c *Ctx) skolemiseForall(e *Expr, ev *EvalCtx) (string, error) {
+	n := ev
+	var sks []SVal
+	for _, v := range e.Vars {
+		s, gt := c.eng.resolveType(ev.pkg, v.Type)
+		c.skolems++
+		sk := c.declare(fmt.Sprintf("sk.%s!%d", v.Name, c.skolems), s)
+		sv := SVal{T: sk, S: s, GT: gt}
+		sks = append(sks, sv)
+		n = n.bind(v.Name, sv)
+	}
+	nb := *n
+	nb.mode = 0
+	t, err := nb.evalBool(e.Args[0])
+	if err != nil {
+		return "", err
+	}
+	for _, h := range c.qhyps {
+		if len(h.vars) != len(sks) {
+			continue
+		}
+		ok := true
+		hn := h.ev
+		for k, hv := range h.vars {
+			s, _ := c.eng.resolveType(h.ev.pkg, hv.Type)
+			// instantiate only hypotheses over the same bound-variable names (contracts use consistent names
+			// for the same index space); keeps the number of instances small
+			if s != sks[k].S || hv.Name != e.Vars[k].Name {
+				ok = false
+				break
+			}
+			hn = hn.bind(hv.Name, sks[k])
+		}
+		if !ok {
+			continue
+		}
+		hm := *hn
+		hm.mode = 0
+		ht, err := hm.evalBool(h.body)
 		if err != nil {
-			return "", err
+			continue
 		}
-		parts = append(parts, t)
-		for _, h := range c.qhyps {
-			if len(h.vars) != len(sks) {
-				continue
+		c.assume(h.reach, ht)
+	}
+	return t, nil
+}
+
+// goal (forall v :: A) ==> C: besides assuming the quantified antecedent, instantiate it at the recorded
+// witness tuples of matching sorts.
+func (c *Ctx) goalWithQuantifiedAntecedent(e *Expr, ev *EvalCtx) (string, error) {
+	fa := e.Args[0]
+	n0 := *ev
+	n0.mode = 0
+	ante, err := n0.evalBool(fa)
+	if err != nil {
+		return "", err
+	}
+	conj := []string{ante}
+	for _, tup := range c.skTuples {
+		if len(tup) != len(fa.Vars) {
+			continue
+		}
+		n := &n0
+		ok := true
+		for k, v := range fa.Vars {
+			s, _ := c.eng.resolveType(ev.pkg, v.Type)
+			if s != tup[k].S {
+				ok = false
+				break
 			}
-			ok := true
-			hn := h.ev
-			for k, hv := range h.vars {
-				s, _ := c.eng.resolveType(h.ev.pkg, hv.Type)
-				if s != sks[k].S {
-					ok = false
-					break
-				}
-				hn = hn.bind(hv.Name, sks[k])
-			}
-			if !ok {
-				continue
-			}
-			ht, err := hn.evalBool(h.body)
-			if err != nil {
-				continue
-			}
-			c.assume(h.reach, ht)
+			n = n.bind(v.Name, tup[k])
+		}
+		if !ok {
+			continue
+		}
+		if inst, err := n.evalBool(fa.Args[0]); err == nil {
+			conj = append(conj, inst)
 		}
 	}
-	if len(parts) == 1 {
-		return parts[0], nil
+	cons, err := ev.evalBool(e.Args[1])
+	if err != nil {
+		return "", err
 	}
-	return "(and " + strings.Join(parts, " ") + ")", nil
+	return "(=> (and " + strings.Join(conj, " ") + ") " + cons + ")", nil
 }
